@@ -81,7 +81,7 @@ def dims_of(part):
 
 
 def _wire_body(idx):
-    sch, host_i, port_k, userinfo, path_i, query_i, frag = decode_point(idx, dims_of(P))
+    sch, host_i, port_k, userinfo, path_i, query_i, frag = decode_point(idx, dims_of)
     return N._untraced(_wire)(P.scheme, P.proxy, sch, host_i, port_k, userinfo, path_i, query_i, frag)
 
 
@@ -243,6 +243,9 @@ def c15_wire(idx: int) -> bool:
     post: _
     """
     return run(_wire_body, idx)
+
+
+DIMS = {"c15_wire": dims_of}
 
 
 def JOBS(tier):
